@@ -244,37 +244,48 @@ template <typename T> cocls::async<void> sft_waiter(cocls::shared_future<T> f, s
 template <typename T> std::string sft_history(vf::rng &r, std::string &trace) {
     using SF = cocls::shared_future<T>;
     std::string err;
-    int path = (int)r.below(3), kind = (int)r.below(3);
-    trace = std::string(std::is_void_v<T> ? "shared_future<void> " : "shared_future<int> ") + "make" + std::to_string(path) + " ";
-    cocls::promise<T> prom;
-    std::vector<std::unique_ptr<SF>> handles;
-    std::deque<sf_obs> obs;
-    if (path == 0) handles.push_back(std::make_unique<SF>([&](cocls::promise<T> p) { prom = std::move(p); }));
-    else if (path == 1) handles.push_back(std::make_unique<SF>([&]() -> cocls::future<T> { return cocls::future<T>([&](cocls::promise<T> p) { prom = std::move(p); }); }));
-    else { handles.push_back(std::make_unique<SF>()); prom = handles.back()->get_promise(); }
-    auto resolve = [&] {
-        trace += "resolve" + std::to_string(kind) + " ";
-        if (kind == SFR_VALUE) { if constexpr (std::is_void_v<T>) prom(); else prom(42); }
-        else if (kind == SFR_EXC) prom(vf::make_exc(77));
-        else { cocls::promise<T> q = std::move(prom); }
+    // TWO independent shared states: handles are copied, copy-/move-ASSIGNED across the states (the overwritten state loses an owner and
+    // must survive exactly as long as it is pending or somebody else holds it), awaited and dropped in random order
+    int path[2] = {(int)r.below(3), (int)r.below(3)}, kind[2] = {(int)r.below(3), (int)r.below(3)};
+    trace = std::string(std::is_void_v<T> ? "shared_future<void> " : "shared_future<int> ") + "make" + std::to_string(path[0]) + std::to_string(path[1]) + " ";
+    cocls::promise<T> prom[2];
+    std::vector<std::unique_ptr<SF>> handles; std::vector<int> hstate;
+    std::deque<sf_obs> obs; std::vector<int> ostate;
+    for (int st = 0; st < 2; st++) {
+        cocls::promise<T> &pr = prom[st];
+        if (path[st] == 0) handles.push_back(std::make_unique<SF>([&](cocls::promise<T> p) { pr = std::move(p); }));
+        else if (path[st] == 1) handles.push_back(std::make_unique<SF>([&]() -> cocls::future<T> { return cocls::future<T>([&](cocls::promise<T> p) { pr = std::move(p); }); }));
+        else { handles.push_back(std::make_unique<SF>()); pr = handles.back()->get_promise(); }
+        hstate.push_back(st);
+    }
+    auto resolve = [&](int st) {
+        trace += "resolve" + std::to_string(st) + "/" + std::to_string(kind[st]) + " ";
+        if (kind[st] == SFR_VALUE) { if constexpr (std::is_void_v<T>) prom[st](); else prom[st](42 + st); }
+        else if (kind[st] == SFR_EXC) prom[st](vf::make_exc(77 + st));
+        else { cocls::promise<T> q = std::move(prom[st]); }
     };
-    int len = 1 + (int)r.below(10), resolve_at = (int)r.below((uint32_t)len + 1);
-    bool resolved = false;
+    int len = 1 + (int)r.below(12), resolve_at[2] = {(int)r.below((uint32_t)len + 1), (int)r.below((uint32_t)len + 1)};
     for (int step = 0; step <= len; step++) {
-        if (step == resolve_at) { resolve(); resolved = true; }
+        for (int st = 0; st < 2; st++) if (step == resolve_at[st]) resolve(st);
         if (step == len) break;
         size_t live = 0; for (auto &h : handles) if (h) live++;
         if (!live) continue;
         size_t hi; do { hi = r.below((uint32_t)handles.size()); } while (!handles[hi]);
-        uint32_t x = r.below(8);
-        if (x < 3) { trace += "copy "; handles.push_back(std::make_unique<SF>(*handles[hi])); }
-        else if (x < 6) { trace += "await "; obs.emplace_back(); sft_waiter<T>(*handles[hi], obs.back()).detach(); }
-        else { trace += "drop "; handles[hi].reset(); }
+        uint32_t x = r.below(11);
+        if (x < 3) { trace += "copy "; handles.push_back(std::make_unique<SF>(*handles[hi])); hstate.push_back(hstate[hi]); }
+        else if (x < 6) { trace += "await "; obs.emplace_back(); ostate.push_back(hstate[hi]); sft_waiter<T>(*handles[hi], obs.back()).detach(); }
+        else if (x < 8) { trace += "drop "; handles[hi].reset(); }
+        else { // assignment onto another live handle (possibly of the other state, possibly itself)
+            size_t hj; do { hj = r.below((uint32_t)handles.size()); } while (!handles[hj]);
+            if (x == 8) { trace += "copy-assign "; *handles[hj] = *handles[hi]; hstate[hj] = hstate[hi]; }
+            else if (x == 9 && hi != hj) { trace += "move-assign "; *handles[hj] = std::move(*handles[hi]); hstate[hj] = hstate[hi]; handles[hi].reset(); }
+            else { trace += "self-assign "; SF &ref = *handles[hi]; *handles[hi] = ref; }
+        }
     }
-    (void)resolved;
     for (size_t i = 0; i < obs.size() && err.empty(); i++) {
+        int st = ostate[i];
         if (obs[i].released.load() != 1) err = "observer #" + std::to_string(i) + " released " + std::to_string(obs[i].released.load()) + " times";
-        else if (!sf_expected(obs[i], kind, kind == SFR_VALUE ? (std::is_void_v<T> ? 0 : 42) : 77)) err = "observer #" + std::to_string(i) + " saw " + obs[i].str();
+        else if (!sf_expected(obs[i], kind[st], kind[st] == SFR_VALUE ? (std::is_void_v<T> ? 0 : 42 + (uint64_t)st) : 77 + (uint64_t)st)) err = "observer #" + std::to_string(i) + " of state " + std::to_string(st) + " saw " + obs[i].str();
     }
     handles.clear();
     return err;
